@@ -102,9 +102,15 @@ func Mul(x, y Number) Number {
 
 // Inv returns the dual inverse of d.
 func Inv(d Number) Number {
+	// (r+dϵ)⁻¹ = r⁻¹ - r⁻¹dr⁻¹ϵ; quaternion multiplication does not
+	// commute. With r⁻¹ = conj(r)/|r|² the dual part is evaluated as
+	// -conj(r)·(d/|r|²)·conj(r)/|r|², which is NaN for infinite r.
+	a := quat.Abs(d.Real)
+	s := 1 / (a * a)
+	c := quat.Conj(d.Real)
 	return Number{
 		Real: quat.Inv(d.Real),
-		Dual: quat.Scale(-1, quat.Mul(d.Dual, quat.Inv(quat.Mul(d.Real, d.Real)))),
+		Dual: quat.Scale(-s, quat.Mul(quat.Mul(c, quat.Scale(s, d.Dual)), c)),
 	}
 }
 
